@@ -37,6 +37,8 @@ type Server struct {
 	WatchFault func(n int, rv string) WatchMode
 	// Kind selects the list type returned (default pod).
 	Kind string
+	// Mixed makes List return a generic metav1.List of all stored objects, whatever their kinds.
+	Mixed bool
 	// RVStep spaces resource versions (default 1).
 	RVStep int
 
@@ -179,6 +181,13 @@ func (s *Server) List(ctx context.Context, opts metav1.ListOptions) (runtime.Obj
 	objs, rv := s.stateLocked(), strconv.Itoa(s.rv)
 	s.mu.Unlock()
 	finish(rv, false)
+	if s.Mixed {
+		l := &metav1.List{ListMeta: metav1.ListMeta{ResourceVersion: rv}}
+		for _, o := range objs {
+			l.Items = append(l.Items, runtime.RawExtension{Object: o.Build().(runtime.Object)})
+		}
+		return l, nil
+	}
 	kind := s.Kind
 	if kind == "" {
 		kind = "pod"
